@@ -369,12 +369,18 @@ pub struct SpectrumCase {
 
 fn spectrum_strategy(cli_share: f64) -> impl Strategy<Value = SpectrumCase> {
     (
-        prop_oneof![3 => 3usize..=40, 2 => 41usize..=175, 1 => 176usize..=600, 1 => prop_oneof![Just(169usize), Just(170), Just(171), Just(172), Just(3), Just(4)]],
+        prop_oneof![3 => 3usize..=40, 2 => 41usize..=175, 1 => 176usize..=600, 1 => prop_oneof![Just(169usize), Just(170), Just(171), Just(172), Just(3), Just(4)],
+            // genome-scale sample sizes, and sizes beside 512 / 1024 / 4096 (tables, asymptotic shortcuts)
+            1 => prop_oneof![Just(511usize), Just(512), Just(513), Just(1023), Just(1024), Just(1025), Just(4096), Just(4097), 601usize..=5000]],
         prop::collection::vec(prop_oneof![2 => Just(0u32), 3 => 0u32..20, 1 => 0u32..5000], 601),
         prop::bool::weighted(cli_share),
     )
         .prop_map(|(n, mut counts, via_cli)| {
             counts.truncate(n + 1);
+            while counts.len() < n + 1 {
+                let k = counts.len();
+                counts.push(counts[(k * 7 + k / 601) % 601]);
+            }
             SpectrumCase { n, counts, via_cli }
         })
 }
@@ -432,7 +438,7 @@ pub fn check(ctx: &Ctx) -> Check {
         }),
         Box::new(RandomPart {
             name: "estimator-formulas",
-            rule: "one-axis count spectra, n from 3 to 600 chromosomes (edges 169..172 forced), random integer counts with zeros: Watterson's theta, pi, Tajima's D (1989 constants) and Fu and Li's D (1993 constants) re-derived from the papers' notation with compensated sums, through the library and (20%) through `sfs stat`; D compared with a tolerance scaled by the cancelling terms; non-trivial = S >= 2 and >= 2 non-zero interior classes",
+            rule: "one-axis count spectra, n from 3 to 600 chromosomes (edges 169..172 forced; one case in eight with 511..513, 1023..1025, 4096/4097 or 601..5000 chromosomes), random integer counts with zeros: Watterson's theta, pi, Tajima's D (1989 constants) and Fu and Li's D (1993 constants) re-derived from the papers' notation with compensated sums, through the library and (20%) through `sfs stat`; D compared with a tolerance scaled by the cancelling terms; non-trivial = S >= 2 and >= 2 non-zero interior classes",
             cases: ctx.tier.pick(8000, 400_000),
             strategy: Box::new(|| spectrum_strategy(0.2).boxed()),
             eval: Box::new(eval_spectrum),
